@@ -185,9 +185,9 @@ var paths = []pe{{"/doc", "-"}, {"", "/"}, {"/", "-"}, {"/a/b/c", "-"}, {"/a%20b
 var queries = []pe{{"", "-"}, {"?x=1", "-"}, {"?", ""}, {"?x=a b", ""}, {"?x=a%20b", "-"}, {"?x=%0d%0aHost:%20evil", "-"}, {"?a=1&b=ü", ""}, {"?x=1#", ""}, {"?x=\r\nY: z", ""},
 	{"?x=a HTTP/1.0", ""}, {"?x=\t", ""}, {"??", ""}, {"?x=/../", "-"}, {"? ", ""}}
 var fragments = []string{"", "", "#f", "#", "#a b", "#\r\nX: y", "#%0d%0a"}
-var schemes = []string{"https", "https", "https", "https", "HTTPS", "Https", "http", "", "gemini", "ftp", "https+x", "file", "javascript"}
-var userinfos = []string{"", "", "", "user:pw@", "a%0d%0ab@", "@", "u@", ":@", "a b@"}
-var authorities = []string{"%H0%", "%H0%", "%H1%", "%CANARY%", "%CLOSED%", "%H0%.", "LOCALHOST%PORT0%", "%H0%:", "%H0% ", "%H0%\r\nX-A: b", "[::1]%PORT0%", "", "%H0%:99999", "%H0%:0x50", "%H0%%20", "%H0%%0d%0aX-A:%20b"}
+var schemes = []string{"https", "https", "https", "https", "https", "https", "https", "https", "https", "https", "https", "https", "https", "https", "https", "https", "HTTPS", "Https", "http", "", "gemini", "ftp", "https+x", "file", "javascript"}
+var userinfos = []string{"", "", "", "", "", "", "", "", "user:pw@", "a%0d%0ab@", "@", "u@", ":@", "a b@"}
+var authorities = []string{"%H0%", "%H0%", "%H1%", "%H0%", "%H0%", "%H1%", "%H0%", "%H0%", "%H1%", "%H0%", "%H0%", "%H1%", "%H0%", "%H0%", "%H1%", "%H0%", "%H1%", "%CANARY%", "%CLOSED%", "%H0%.", "LOCALHOST%PORT0%", "%H0%:", "%H0% ", "%H0%\r\nX-A: b", "[::1]%PORT0%", "", "%H0%:99999", "%H0%:0x50", "%H0%%20", "%H0%%0d%0aX-A:%20b"}
 
 func expandPort(s string) string {
 	a := sim.Authority(0)
@@ -214,7 +214,7 @@ func genURLParts(t *rapid.T, c *Case, planted bool) {
 }
 
 var accts = []string{"alice", "a b", "a%0d%0ab", "a\r\nX: y", "a&resource=evil", "a#b", "ü", "", "a@b", "acct:alice", "a?x=1", "a=b", "a+b", "%", "a\x00b"}
-var domains = []string{"%H0%", "%H0%", "%H0%", "%H0%/evil?x=", "%H0%\r\nX-Injected: 1", "%H0%#f", "%H0%?x", "user@%H0%", "%CANARY%", "%CLOSED%", "[::1]%PORT0%", "[::1%25\r\nX-Injected: 1]%PORT0%",
+var domains = []string{"%H0%", "%H0%", "%H0%", "%H0%", "%H0%", "%H0%", "%H0%", "%H0%", "%H0%/evil?x=", "%H0%\r\nX-Injected: 1", "%H0%#f", "%H0%?x", "user@%H0%", "%CANARY%", "%CLOSED%", "[::1]%PORT0%", "[::1%25\r\nX-Injected: 1]%PORT0%",
 	"%H0% ", " %H0%", "%H0%:", "", "%H0%@%H1%", "%H0%\\@x", "%H0%%0d%0aX-A:%20b", "LOCALHOST%PORT0%", "%H0%\nX: y", "127.0.0.1\r\nX: y%PORT0%"}
 
 func gen(t *rapid.T) Case {
